@@ -1,8 +1,166 @@
 package main
 
-func extractSites() string {
-	return genHeader + "namespace Sqlc.Gen\nend Sqlc.Gen\n"
+import (
+	"fmt"
+	"go/ast"
+	"go/token"
+	"regexp"
+	"sort"
+	"strings"
+	"text/template/parse"
+)
+
+// ---------------------------------------------------------------- C11 / C01: facts read off the Go template
+func templateText() string {
+	_, f := parseFile("internal/codegen/golang/gen.go")
+	if f == nil {
+		return ""
+	}
+	for _, d := range f.Decls {
+		gd, ok := d.(*ast.GenDecl)
+		if !ok || gd.Tok != token.VAR {
+			continue
+		}
+		for _, sp := range gd.Specs {
+			vs := sp.(*ast.ValueSpec)
+			if len(vs.Names) == 1 && vs.Names[0].Name == "templateSet" && len(vs.Values) == 1 {
+				if s, ok := strLit(vs.Values[0]); ok {
+					return s
+				}
+			}
+		}
+	}
+	untr("gen.go: templateSet not found")
+	return ""
 }
+
+type cmdFacts struct {
+	cmd                        string
+	results                    string // result tuple of the method
+	ifaceResults               string
+	drvPrepared, drvPlain      string
+	errChecks                  int
+	rowsClose, rowsErr, scan   bool
+	deferClose                 bool
+}
+
+var cmdIfRe = regexp.MustCompile(`^eq \.Cmd "(:[a-z]+)"$`)
+
+func walkIfs(n parse.Node, f func(cmd string, body *parse.ListNode)) {
+	switch x := n.(type) {
+	case *parse.ListNode:
+		if x == nil {
+			return
+		}
+		for _, c := range x.Nodes {
+			walkIfs(c, f)
+		}
+	case *parse.IfNode:
+		if m := cmdIfRe.FindStringSubmatch(x.Pipe.String()); m != nil {
+			f(m[1], x.List)
+		}
+		walkIfs(x.List, f)
+		if x.ElseList != nil {
+			walkIfs(x.ElseList, f)
+		}
+	case *parse.RangeNode:
+		walkIfs(x.List, f)
+		if x.ElseList != nil {
+			walkIfs(x.ElseList, f)
+		}
+	case *parse.WithNode:
+		walkIfs(x.List, f)
+	}
+}
+
 func extractTemplate() string {
+	txt := templateText()
+	funcs := map[string]interface{}{"lowerTitle": fmt.Sprint, "comment": fmt.Sprint, "escape": fmt.Sprint, "imports": fmt.Sprint}
+	trees, err := parse.Parse("t", txt, "{{", "}}", funcs, map[string]interface{}{"eq": fmt.Sprint, "len": fmt.Sprint, "or": fmt.Sprint})
+	facts := map[string]*cmdFacts{}
+	get := func(c string) *cmdFacts {
+		if facts[c] == nil {
+			facts[c] = &cmdFacts{cmd: c}
+		}
+		return facts[c]
+	}
+	if err != nil {
+		untr("templateSet does not parse: %v", err)
+	} else {
+		sigRe := regexp.MustCompile(`\) (\(?[^{\n]*\)?) \{`)
+		if t := trees["queryCode"]; t != nil {
+			walkIfs(t.Root, func(cmd string, body *parse.ListNode) {
+				s := body.String()
+				cf := get(cmd)
+				if m := regexp.MustCompile(`func \(q \*Queries\)[^\n]*\) (\([^)]*\)|[a-zA-Z.]+) \{`).FindStringSubmatch(s); m != nil {
+					cf.results = m[1]
+				}
+				if m := regexp.MustCompile(`q\.(queryRow|query|exec)\(ctx, q\.`).FindStringSubmatch(s); m != nil {
+					cf.drvPrepared = m[1]
+				}
+				if m := regexp.MustCompile(`q\.db\.(QueryRowContext|QueryContext|ExecContext)\(ctx,`).FindStringSubmatch(s); m != nil {
+					cf.drvPlain = m[1]
+				}
+				cf.errChecks = strings.Count(s, "err != nil")
+				cf.rowsClose = strings.Contains(s, "err := rows.Close(); err != nil")
+				cf.rowsErr = strings.Contains(s, "err := rows.Err(); err != nil")
+				cf.scan = strings.Contains(s, ".Scan(")
+				cf.deferClose = strings.Contains(s, "defer rows.Close()")
+			})
+		} else {
+			untr("template queryCode not found")
+		}
+		if t := trees["interfaceCode"]; t != nil {
+			walkIfs(t.Root, func(cmd string, body *parse.ListNode) {
+				s := body.String()
+				if i := strings.LastIndex(s, "}})"); i >= 0 {
+					get(cmd).ifaceResults = strings.TrimSpace(s[i+3:])
+				}
+			})
+		} else {
+			untr("template interfaceCode not found")
+		}
+		_ = sigRe
+	}
+	var cmds []string
+	for c := range facts {
+		cmds = append(cmds, c)
+	}
+	sort.Strings(cmds)
+	var b strings.Builder
+	b.WriteString(genHeader + "namespace Sqlc.Gen\n")
+	b.WriteString("/-- per `{{if eq .Cmd …}}` block of queryCode / interfaceCode:\n (cmd, method results, interface results, driver entry with prepared queries, driver entry without,\n  number of `err != nil` checks, checked rows.Close, checked rows.Err, has Scan, defer rows.Close) -/\n")
+	b.WriteString("def templateContract : List (String × String × String × String × String × Nat × Bool × Bool × Bool × Bool) := [\n")
+	for i, c := range cmds {
+		f := facts[c]
+		sep := ","
+		if i == len(cmds)-1 {
+			sep = ""
+		}
+		f.results = strings.ReplaceAll(f.results, "{{.Ret.Type}}", "T")
+		f.ifaceResults = strings.ReplaceAll(f.ifaceResults, "{{.Ret.Type}}", "T")
+		b.WriteString(fmt.Sprintf("  (%s, %s, %s, %s, %s, %d, %s, %s, %s, %s)%s\n", lstr(f.cmd), lstr(f.results), lstr(f.ifaceResults), lstr(f.drvPrepared), lstr(f.drvPlain),
+			f.errChecks, lbool(f.rowsClose), lbool(f.rowsErr), lbool(f.scan), lbool(f.deferClose), sep))
+	}
+	b.WriteString("]\n")
+	// identifiers the fixed template text declares at package level (dbCode / interfaceCode)
+	var fixed []string
+	for _, m := range regexp.MustCompile(`(?m)^(?:type|func) (?:\(q \*Queries\) )?([A-Za-z_]+)`).FindAllStringSubmatch(txt, -1) {
+		fixed = append(fixed, m[1])
+	}
+	sort.Strings(fixed)
+	var uniq []string
+	for i, f := range fixed {
+		if i == 0 || fixed[i-1] != f {
+			uniq = append(uniq, f)
+		}
+	}
+	b.WriteString("def templateFixedIdents : List String := " + lstrs(uniq) + "\n")
+	b.WriteString("def templateHasQuerierAssertion : Bool := " + lbool(strings.Contains(txt, "var _ Querier = (*Queries)(nil)")) + "\n")
+	b.WriteString("end Sqlc.Gen\n")
+	return b.String()
+}
+
+func extractSites() string {
 	return genHeader + "namespace Sqlc.Gen\nend Sqlc.Gen\n"
 }
